@@ -845,6 +845,12 @@ impl Connection {
             _ => return Err(ConnectionInnerError::IllegalState),
         }
 
+        // A begin on a channel that already carries a session would re-route the frames
+        // (and the end) of that session to the new one
+        if self.session_by_incoming_channel.contains_key(&channel) {
+            return Err(ConnectionInnerError::IllegalState);
+        }
+
         match begin.remote_channel {
             // This corresponds a locally initiated session
             Some(outgoing_channel) => {
